@@ -74,8 +74,38 @@ Definition sx_obs (v : obs) : sx :=
   | VNames l => SL (sx_w "names" :: map sx_zs l)
   end.
 
+Definition p_tbl (x : sx) : option (list name * list row) :=
+  match x with SL [c; r] => match p_names c, p_rows r with Some a, Some b => Some (a, b) | _, _ => None end | _ => None end.
+Definition p_dop (x : sx) : option dop :=
+  match x with
+  | SL [SS t] => if is_tag "dschema" t then Some DSchema else None
+  | SL [SZ i; o] => option_map (DOp (Z.to_nat i)) (p_op o)
+  | _ => None
+  end.
+Definition sx_dobs (v : dobs) : sx :=
+  match v with
+  | DV o => sx_obs o
+  | DSchemas l => SL (sx_w "schemas" :: map (fun ns => SL (map sx_zs ns)) l)
+  end.
+(* (runm F ((names) (rows)) ...) (dop ...))   dop = (i op) | (dschema) *)
+Definition dispatch_m (f t o : sx) : sx :=
+  match t, o with
+  | SL tl, SL ol =>
+      match p_flags f, sx_list p_tbl tl, sx_list p_dop ol with
+      | Some fl, Some tbls, Some ops =>
+          SL [sx_w "ok";
+              SL (sx_w "m" :: map sx_dobs (drun fl (dcreate tbls) ops));
+              SL (sx_w "s" :: map sx_dobs (sdrun (sdcreate tbls) ops));
+              SL [sx_w "dom"; sx_nat (sddom_len (sdcreate tbls) ops)];
+              SL [sx_w "wf"; sx_bool (forallb (fun cr => wf_create (fst cr) (snd cr)) tbls)]]
+      | _, _, _ => sx_err "parse"
+      end
+  | _, _ => sx_err "shape"
+  end.
+
 Definition dispatch (x : sx) : sx :=
   match x with
+  | SL [SS t; f; tl; ol] => if is_tag "runm" t then dispatch_m f tl ol else sx_err "op"
   | SL [SS t; f; c; r; SL o] =>
       if is_tag "run" t then
         match p_flags f, p_names c, p_rows r, sx_list p_op o with
